@@ -29,6 +29,7 @@ import (
 	"math/big"
 	"math/rand"
 	"os"
+	"runtime"
 	"sort"
 
 	"go.opentelemetry.io/otel"
@@ -758,6 +759,48 @@ func projectHist(s *ScenCtx, agg metricdata.Aggregation, shape string) HObs {
 
 var counters = vh.NewResult()
 
+// sysMB is the memory this process obtained from the OS (the driver caps the address space far above it).
+func sysMB() int64 {
+	var ms runtime.MemStats
+	runtime.ReadMemStats(&ms)
+	return int64(ms.Sys >> 20)
+}
+
+// ---------------------------------------------------------------- progress file
+//
+// VERIF_PROGRESS names a file that always holds the scenario about to be executed. The driver
+// runs the harness under an address-space limit: a measurement that makes the SDK allocate
+// without bound (a broken size limit) kills the process from inside one Record call, and the
+// driver then knows which scenario did it.
+var (
+	progressF   *os.File
+	progressLen int
+)
+
+func progress(parts ...any) {
+	if progressF == nil {
+		if p := os.Getenv("VERIF_PROGRESS"); p != "" && progressLen == 0 {
+			f, err := os.Create(p)
+			vh.Must(err)
+			progressF = f
+		} else {
+			progressLen = -1
+			return
+		}
+	}
+	b := []byte(fmt.Sprint(parts...))
+	n := len(b)
+	for len(b) < progressLen {
+		b = append(b, ' ')
+	}
+	b = append(b, '\n')
+	progressLen = n
+	if len(b)-1 > progressLen {
+		progressLen = len(b) - 1
+	}
+	progressF.WriteAt(b, 0)
+}
+
 // ---------------------------------------------------------------- scenario execution
 
 // SOp is one step of a scenario: a measurement (with its abstract value) or a collect.
@@ -776,6 +819,10 @@ func execScenario(sc int, c *Cfg, table []ranked, ops []SOp, observe string) (li
 			panicked = r
 		}
 	}()
+	if progressLen >= 0 {
+		cj, _ := json.Marshal(c)
+		progress("scenario ", sc, " observe=", observe, " cfg=", string(cj), " isint=", c.IsInt, " ops=", concList(ops))
+	}
 	s := &ScenCtx{cfg: c, table: table}
 	run := newRunner(c)
 	run.salt = sc
@@ -1357,6 +1404,7 @@ func replay(args []string) {
 	for k, v := range counters.Counters {
 		res.Count(k, v)
 	}
+	res.Count("harness_sys_mb", sysMB())
 	vh.Must(res.Write(*out))
 }
 
@@ -1385,7 +1433,7 @@ func sign(r *rand.Rand, negProb int) float64 {
 // genExpoValues produces the float measurements of one exponential scenario of the given class.
 func genExpoValues(r *rand.Rand, class string, n int, c *Cfg) []Meas {
 	out := make([]Meas, 0, n)
-	negProb := pick(r, 0, 0, 10, 50)
+	negProb := pick(r, 0, 0, 10, 50, 100)
 	add := func(f float64) {
 		if math.IsNaN(f) || math.IsInf(f, 0) {
 			return
@@ -1872,6 +1920,7 @@ func random(args []string) {
 	for k, v := range counters.Counters {
 		res.Count(k, v)
 	}
+	res.Count("harness_sys_mb", sysMB())
 	vh.Must(res.Write(*resF))
 }
 
